@@ -277,9 +277,8 @@ class Extractor:
         text = src[loc.start:loc.end]
         mtext = masked[loc.start:loc.end]
         text2 = self._strip_attrs_and_docs(text, mtext, rec)
-        if re.match(r"pub(\s*\([^)]*\))?\s+", text2):
-            text2 = re.sub(r"^pub(\s*\([^)]*\))?\s+", "", text2)
-            self._count(rec, "R7")
+        text2 = "pub " + re.sub(r"^pub(\s*\([^)]*\))?\s+", "", text2.lstrip("\n"))
+        self._count(rec, "R7")
         rec["sha256"] = hashlib.sha256(text.encode()).hexdigest()
         self.types.append(rec)
         self.pieces.append(Piece("#[derive(Clone, Copy, PartialEq, Eq)]\n" if "{" in text and not re.search(r"\(", mtext[mtext.find("{"):]) else "", ("unit", self.unit_path, 0)))
@@ -296,7 +295,8 @@ class Extractor:
         rec["sha256"] = hashlib.sha256(text.encode()).hexdigest()
         if re.match(r"pub(\s*\([^)]*\))?\s+", text):
             text = re.sub(r"^pub(\s*\([^)]*\))?\s+", "", text)
-            self._count(rec, "R7")
+        text = "pub " + text   # R7: visibility normalised to pub (consts are emitted inside helper modules)
+        self._count(rec, "R7")
         self.types.append(rec)
         self.pieces.append(Piece(text + "\n", ("repo", rel, L.line_of(src, loc.start))))
 
@@ -310,7 +310,7 @@ class Extractor:
         whole = src[loc.start:loc.end]
         rec["sha256"] = hashlib.sha256(whole.encode()).hexdigest()
         header = src[loc.start:loc.body_open]
-        header = re.sub(r"^pub(\s*\([^)]*\))?\s+", "", header)
+        header = "pub " + re.sub(r"^pub(\s*\([^)]*\))?\s+", "", header)
         self._count(rec, "R7")
         body = src[loc.body_open + 1:loc.body_close]
         mbody = masked[loc.body_open + 1:loc.body_close]
@@ -545,8 +545,9 @@ class Extractor:
         msig = L.mask_code(sig)
         m = re.match(r"\s*pub(\s*\([^)]*\))?\s+", msig)
         if m:
-            sig = sig[m.end():].rjust(len(sig)) if False else (" " * 0 + sig[m.end():])
-            self._count(rec, "R7")
+            sig = sig[m.end():]
+        sig = "pub " + sig   # R7: visibility normalised to pub
+        self._count(rec, "R7")
         if fs.rename:
             sig = re.sub(r"\bfn\s+" + re.escape(fs.name) + r"\b", "fn " + fs.rename, sig, count=1)
         if fs.impl_trait is not None:
